@@ -105,7 +105,9 @@ class Elab:
         self.steps = 0
         self.class_attrs = {}
         self.modglobals = {}
-        self._visible = {}
+        if not hasattr(facts, '_visible_classes'):
+            facts._visible_classes = {}
+        self._visible = facts._visible_classes      # shared by every interpreter over the same facts
         self.depth = 0
 
     # ------------------------------------------------------------------ classes
